@@ -303,6 +303,28 @@ def entries_check(lib_raw=None):
     for name, body in entries:
         if not re.match(r'init\([^;]*\);', re.sub(r'\s+', '', body)):
             failures.append(fail(name, 'C07.entry-calls-init-first.%s' % name, 'public entry %s does not call init() first' % name, ['C07', 'C17', 'C15'], Dummy('sv-parser-parser/src/lib.rs', lib_raw[:lib_raw.index('pub fn ' + name)].count('\n') + 1)))
+    # Error::Parse is the report of the STRICT parsers and of nothing else: it is constructed in parse_sv_pp / parse_lib_pp (unit
+    # wrap proves: only from a parser Err, hence never in incomplete mode) and nowhere else in the six crates.  parse_*_str run the
+    # preprocessor first: if the preprocessor (or anything else) constructed Error::Parse, incomplete mode could report it
+    checked += 1
+    for crate in ('sv-parser-pp', 'sv-parser', 'sv-parser-syntaxtree', 'sv-parser-error', 'sv-parser-macros', 'sv-parser-parser'):
+        for rel, raw in crate_text(crate):
+            src = front.blank_strings(raw)
+            src = re.sub(r'//[^\n]*', lambda m: ' ' * len(m.group(0)), src)
+            for m in re.finditer(r'\bError\s*::\s*Parse\b', src):
+                line_end = src.find('\n', m.end())
+                rest = src[m.end():line_end if line_end >= 0 else len(src)]
+                if re.search(r'=>', rest) or re.search(r'\b(?:if|while)\s+let\b[^\n]*$', src[src.rfind('\n', 0, m.start()) + 1:m.start()]):
+                    continue            # a pattern (match arm / if let), not a construction
+                enc = None
+                for fm in re.finditer(r'\bfn\s+(\w+)', src[:m.start()]):
+                    enc = fm.group(1)
+                if rel.endswith('sv-parser/src/lib.rs') and enc in ('parse_sv_pp', 'parse_lib_pp'):
+                    continue
+                if crate == 'sv-parser-error' and enc is None:
+                    continue            # the declaration of the variant itself
+                failures.append(fail(enc or '-', 'C15.parse-error-is-reported-by-the-strict-parsers-only', 'Error::Parse is constructed in %s (%s), outside parse_sv_pp / parse_lib_pp' % (enc or 'top level', rel),
+                                     ['C15'], Dummy(rel, raw.count('\n', 0, m.start()) + 1)))
     return dict(failures=failures, checked=checked, undecided=undecided)
 
 
